@@ -693,14 +693,20 @@ class MonC06(object):
         self.started_at = {}   # task -> first step at which it was seen started at 'recorded'
         self.rec = []
         self.touched = set()   # ids of components whose placed_workplace was written in this step
+        self.entered = {}      # id(workplace) -> {id(component): component} written into it in this step
 
     def on_write(self, tr, obj, attr, old, new):
         if attr == "placed_workplace":
             self.touched.add(id(obj))
+            if new is not None:
+                # every component that entered a workplace at any moment of this step (a nested component may enter
+                # and leave again within one pass - the known "moved twice" finding - and occupy space in between)
+                self.entered.setdefault(id(new), {})[id(obj)] = obj
 
     def on_phase(self, tr, project, phase, snap):
         if phase == "recorded":
             self.touched = set()
+            self.entered = {}
             for t, s in snap.tstate.items():
                 if t not in self.started_at and (s in (TS.WORKING, TS.FINISHED)):
                     self.started_at[t] = -1 if exempt(t) else snap.step
@@ -728,8 +734,8 @@ class MonC06(object):
                                task=t, res=w)
             else:
                 # a single-task flat component that lies NOWHERE after the pass although a workplace of its task
-                # had room for it throughout the pass (components may leave and enter during a pass, each at most
-                # once: everything that lay there at 'updated' OR lies there at 'allocated' is counted),
+                # had room for it throughout the pass (components may leave and enter during a pass: everything that lay
+                # there at 'updated', lies there at 'allocated' or was written into it at any moment of the step is counted),
                 # a FREE facility there that could serve the task and a FREE worker who can operate it
                 c = t.target_component
                 if (c is not None and len(c.targeted_task_list) == 1 and not c.parent_component_list and not c.child_component_list
@@ -741,6 +747,7 @@ class MonC06(object):
                         if up_ is None or wp not in up_.wpcontent:
                             continue
                         there = {id(x): x for x in list(up_.wpcontent[wp]) + list(snap.wpcontent[wp])}
+                        there.update(self.entered.get(id(wp), {}))
                         used = sum(x.space_size for x in there.values())
                         if not (wp.max_space_size - used >= c.space_size):
                             continue
